@@ -82,7 +82,7 @@ def parse_dump(txt):
 
 def accessor_test(S):
     """C++ source exercising every explicit attribute of simple type of every instantiable entity"""
-    out = ['#include "schema.h"', '#include <cstdio>', '#include <cstring>', "int main() {", "  Registry registry( SchemaInit ); int bad = 0;"]
+    out = ['#include "schema.h"', '#include <cstdio>', '#include <cstring>', '#include <string>', "int main() {", "  Registry registry( SchemaInit ); int bad = 0;"]
     n = 0
     for e in S.entities:
         if e["abstract"]:
@@ -102,6 +102,19 @@ def accessor_test(S):
                 body.append('  %s->%s( "it\'s %d" ); if( strcmp( %s->%s().c_str(), "it\'s %d" ) ) { printf("ACCESSOR %s.%s\\n"); bad++; }' % (var, an, n, var, an, n, e["name"], a["name"]))
             elif root == "BOOLEAN":
                 body.append('  %s->%s( BTrue ); if( %s->%s() != BTrue ) { printf("ACCESSOR %s.%s\\n"); bad++; }' % (var, an, var, an, e["name"], a["name"]))
+            elif root == "LOGICAL":
+                body.append('  %s->%s( LUnknown ); if( %s->%s() != LUnknown ) { printf("ACCESSOR %s.%s\\n"); bad++; }' % (var, an, var, an, e["name"], a["name"]))
+            elif root == "BINARY":
+                body.append('  { SDAI_Binary b_( std::string( "0FF" ) ); %s->%s( b_ ); if( strcmp( %s->%s().c_str(), "0FF" ) ) { printf("ACCESSOR %s.%s\\n"); bad++; } }' % (var, an, var, an, e["name"], a["name"]))
+            elif any(q["name"] == ty and not q["abstract"] for q in S.entities):
+                tcls = "Sdai" + ty[0].upper() + ty[1:].lower()
+                body.append('  { %s * r_ = new %s; %s->%s( r_ ); if( %s->%s() != r_ ) { printf("ACCESSOR %s.%s\\n"); bad++; } }' % (tcls, tcls, var, an, var, an, e["name"], a["name"]))
+            else:
+                td = next((t for t in S.types if t["name"] == ty and t["kind"] == "enum"), None)
+                if td and td.get("items"):
+                    tn = ty[0].upper() + ty[1:].lower()
+                    item = "%s__%s" % (tn, td["items"][-1].lower())
+                    body.append('  %s->%s( %s ); if( %s->%s() != %s ) { printf("ACCESSOR %s.%s\\n"); bad++; }' % (var, an, item, var, an, item, e["name"], a["name"]))
         if body:
             out.append("  %s * %s = new %s;" % (cls, var, cls))
             out += body
